@@ -185,3 +185,30 @@ Print Assumptions model_is_code_add_duration_float.
 Theorem model_is_code_sign_float : forall x, gen_sign_float x = Ok (if sf_sign x then -1 else 1).
 Proof. exact gen_sign_float_eq. Qed.
 Print Assumptions model_is_code_sign_float.
+
+(* ---- dt + <plain timedelta> / dt - <plain timedelta>: the plain branch of DateTime._add_timedelta_ / _subtract_timedelta (and DateTime.subtract
+   under a float `seconds`) translated from /repo on every run (Gen/FloatGlueGen.v, gens/g55_float_glue.py) onto the object model of the translated
+   glue (Model/TzGlueObj.v; dt_of W f tz: the DateTime of wall value W, fold f, timezone object tz) equal add_timedelta / sub_timedelta of
+   Model/FloatRoutes.v, about which the timedelta theorems above speak.  How the pieces compose:
+     _add_timedelta_(delta) [translated]  ->  self.add(seconds=delta.total_seconds())
+     DateTime.add(seconds=<float>)        =   the NAMED primitive Model/FloatGlue.g_add_seconds_float = FloatRoutes.add_seconds_float (hand: instant,
+                                              range checks, render - the structure of the integer DateTime.add that Gen/TzGlue.glue_DateTime_add
+                                              translates; g_add_timedelta there answers E_NotImplemented for a plain operand: this is that case)
+     its core helpers.add_duration(dt, seconds=<float>)  =  add_duration_float, PROVED equal to the translation (model_is_code_add_duration_float). *)
+From PV Require Import Model.TzGlueObj Model.FloatGlue Gen.FloatGlueGen Proofs.TzGlueFacts Proofs.FloatGlueFacts.
+
+Theorem model_is_code_add_plain_timedelta : forall t W f N,
+  gen_add_timedelta_plain (dt_of W f (Some t)) N = res_of (Some t) (add_timedelta (gz_zone t) W f N).
+Proof. exact gen_add_timedelta_plain_eq. Qed.
+Print Assumptions model_is_code_add_plain_timedelta.
+
+Theorem model_is_code_sub_plain_timedelta : forall t W f N,
+  gen_subtract_timedelta_plain (dt_of W f (Some t)) N = res_of (Some t) (sub_timedelta (gz_zone t) W f N).
+Proof. exact gen_subtract_timedelta_plain_eq. Qed.
+Print Assumptions model_is_code_sub_plain_timedelta.
+
+Theorem model_is_code_plain_timedelta_naive : forall W f N,
+  gen_add_timedelta_plain (dt_of W f None) N = res_of None (add_timedelta_naive W f N) /\
+  gen_subtract_timedelta_plain (dt_of W f None) N = res_of None (sub_timedelta_naive W f N).
+Proof. exact gen_add_timedelta_plain_naive_eq. Qed.
+Print Assumptions model_is_code_plain_timedelta_naive.
